@@ -112,7 +112,11 @@ type CorrFile struct {
 	descs   []interface{}
 	files   []string
 	total   int
+	typ     string // optional Coq type of one case (needed when a shard could be all-None)
 }
+
+// Type sets the Coq type annotation of the case list.
+func (c *CorrFile) Type(t string) *CorrFile { c.typ = t; return c }
 
 func (h *H) NewCorr(name string, imports []string, mismatchFn string, perShard int) *CorrFile {
 	c := &CorrFile{h: h, name: name, imports: imports, fn: mismatchFn, max: perShard}
@@ -139,7 +143,11 @@ func (c *CorrFile) flush() {
 	for _, im := range c.imports {
 		sb.WriteString(im + "\n")
 	}
-	sb.WriteString("Open Scope N_scope.\nDefinition cases := [\n")
+	if c.typ != "" {
+		sb.WriteString("Open Scope N_scope.\nDefinition cases : list " + c.typ + " := [\n")
+	} else {
+		sb.WriteString("Open Scope N_scope.\nDefinition cases := [\n")
+	}
 	for i, t := range c.terms {
 		if i > 0 {
 			sb.WriteString(";\n")
